@@ -596,6 +596,119 @@ def _only_raises(fn) -> bool:
     return bool(body) and all(isinstance(st, ast.Raise) for st in body)
 
 
+def _refusing_override(c, name):
+    """the method resolved for class c only raises although a class later
+    in the MRO implements it: a refusal added on purpose"""
+    hits = [k.methods[name] for k in c.mro() if name in k.methods]
+    return bool(hits) and _only_raises(hits[0]) and any(
+        not _only_raises(h) for h in hits[1:])
+
+
+def _refdom_class(c, depth=0):
+    """class of ``c.init_refdom()``: the class itself when the resolved
+    classmethod constructs ``cls(...)``, the last base's answer when it
+    forwards to ``cls.__bases__[-1].init_refdom()``."""
+    fn = c.find_method("init_refdom")
+    if fn is None or depth > 4:
+        raise AnalysisError(f"{c.name}.init_refdom not resolved")
+    rets = [n.value for n in walk_no_nested(fn.node)
+            if isinstance(n, ast.Return) and n.value is not None]
+    if len(rets) != 1 or not isinstance(rets[0], ast.Call):
+        raise AnalysisError(f"{fn.short()}: unexpected form")
+    f = src(rets[0].func)
+    if f == "cls":
+        return c
+    if f == "cls.__bases__[-1].init_refdom":
+        if not c.bases:
+            raise AnalysisError(f"{c.name}: no base class")
+        return _refdom_class(c.bases[-1], depth + 1)
+    raise AnalysisError(f"{fn.short()}: returns {f}(...)")
+
+
+def _auxiliary_meshes(model, rep):
+    """CellBasis.refinterp and Mesh._splitref (plotting, draw, refinterp)
+    refine the *reference cell of the mesh's class* and build a mesh of
+    separate cells from it.  A class that refuses refinement or simplex
+    splitting by an override (the periodic classes: their point array is
+    per cell corner) must therefore hand out an ordinary reference mesh,
+    and the auxiliary mesh must not be of the refusing class - otherwise
+    plot(basis, u) / mesh.draw() raise for every mesh of the class."""
+    R1 = "C12-R1"
+    sites = []
+    for fn in model.all_functions():
+        if not fn.path.startswith("skfem/"):
+            continue
+        if True:
+            for n in walk_no_nested(fn.node):
+                if isinstance(n, ast.Assign) and isinstance(
+                        n.value, ast.Call) and isinstance(
+                        n.value.func, ast.Attribute) and \
+                        n.value.func.attr == "refined" and isinstance(
+                        n.value.func.value, ast.Call) and src(
+                        n.value.func.value.func).endswith(".init_refdom") \
+                        and isinstance(n.targets[0], ast.Name):
+                    sites.append((fn, n, n.targets[0].id, src(
+                        n.value.func.value.func)[:-len(".init_refdom")]))
+    if len(sites) < 2:
+        raise AnalysisError(f"only {len(sites)} auxiliary reference-cell "
+                            f"refinements found (refinterp, _splitref "
+                            f"confirmed by hand)")
+    concrete = [c for c in model.all_classes()
+                if c.path.startswith("skfem/mesh/") and c.is_subclass_of(
+                    "Mesh") and c.find_attr("elem") is not None
+                and not c.name.startswith("_")]
+    refusing = [c for c in concrete if _refusing_override(c, "_uniform")
+                or _refusing_override(c, "to_meshtri")]
+    for c in refusing:
+        r = _refdom_class(c)
+        cons = f"{c.name}.init_refdom:refinable"
+        if _refusing_override(r, "_uniform"):
+            rep.fail(R1, c.path, f"{c.name}.init_refdom", cons,
+                     f"{c.name} refuses _uniform by an override, and its "
+                     f"reference mesh init_refdom() is again a {r.name}: "
+                     f"{', '.join(f.short() for f, *_ in sites)} refine "
+                     f"type(mesh).init_refdom(), so refinterp, "
+                     f"plot(basis, u) and mesh.draw() raise for every mesh "
+                     f"of the class", c.node.lineno)
+        else:
+            rep.ok(R1, cons, f"reference mesh is a {r.name}, which refines")
+    for fn, node, var, clsvar in sites:
+        # the class the auxiliary mesh is built with
+        names = {}
+        for n in walk_no_nested(fn.node):
+            if isinstance(n, ast.Assign) and len(n.targets) == 1 and \
+                    isinstance(n.targets[0], ast.Name):
+                names[n.targets[0].id] = src(n.value)
+
+        def kind(e):
+            t = src(e)
+            t = names.get(t, t) if isinstance(e, ast.Name) else t
+            if t == f"type({var})":
+                return "refdom"
+            if t == clsvar or t == names.get(clsvar) or t == "cls" or (
+                    t.startswith("type(") and t != f"type({var})"):
+                return "own"
+            return None
+        ctor = [(n, kind(n.func)) for n in walk_no_nested(fn.node)
+                if isinstance(n, ast.Call) and n.lineno > node.lineno
+                and len(n.args) >= 2 and kind(n.func)]
+        cons = f"{fn.short()}:auxiliary-class"
+        if not ctor:
+            raise AnalysisError(f"{fn.short()}: construction of the "
+                                f"auxiliary mesh not found")
+        bad = [n for n, k in ctor if k == "own"]
+        if bad and refusing:
+            rep.fail(R1, fn.path, fn.short(), cons,
+                     f"the auxiliary mesh of separate cells is built with "
+                     f"'{clsvar}' - the class of the mesh itself; for "
+                     f"{', '.join(c.name for c in refusing)} that class "
+                     f"refuses to_meshtri / refined, which the plotting "
+                     f"routines call on the result", bad[0].lineno)
+        else:
+            rep.ok(R1, cons, f"built with the class of the refined "
+                   f"reference mesh (type({var}))")
+
+
 def _r2_layout(model, rep):
     R2 = "C12-R2"
     # which _uniform leave the subdomains to the generic propagation?
@@ -1213,6 +1326,7 @@ def run(model: Model, rep, tier: str) -> None:
     _tet_diagonal(model, rep)
     _count_dispatch(model, rep)
     _r4_warnings(model, rep)
+    _auxiliary_meshes(model, rep)
     from ..dgspace import report as _dg_report
     _dg_report(model, rep, "C12-R1", lambda n: n == "_uniform",
                "refined() returns a corrupt mesh without any error (cells "
@@ -1235,6 +1349,14 @@ _LI = "skfem/mesh/mesh_line_1.py"
 _ME = "skfem/mesh/mesh.py"
 _T2 = "skfem/mesh/mesh_tet_2.py"
 MUTANTS = [
+    ("periodic classes hand out a reference mesh of their own class again",
+     ("skfem/mesh/mesh_dg.py",
+      "        return cls.__bases__[-1].init_refdom()\n",
+      "        return cls(cls.elem.refdom.p, cls.elem.refdom.t, "
+      "validate=False)\n"), "C12-R1"),
+    ("refinterp builds the split mesh with the class of the mesh",
+     ("skfem/assembly/basis/cell_basis.py", "        M = type(m)(p, t)",
+      "        M = meshclass(p, t)"), "C12-R1"),
     ("periodic meshes inherit uniform refinement again",
      ("skfem/mesh/mesh_dg.py", "    def _uniform(self, *args, **kwargs):\n        raise NotImplementedError\n\n", ""), "C12-R1"),
     ("refined() takes only Python ints for counts",
@@ -1342,6 +1464,9 @@ MUTANTS = [
       "        has_boundaries = self.boundaries is None\n"), "C12-R4"),
 ]
 TWINS = [
+    ("_splitref names the class of the refined reference mesh first",
+     ("skfem/mesh/mesh.py", "        return type(m)(p, t, validate=False)",
+      "        kind = type(m)\n        return kind(p, t, validate=False)")),
     ("first octahedron diagonal measured over all coordinates at once",
      (_TE, "        d1 = ((newp[0, t2e[2]] - newp[0, t2e[4]]) ** 2 +\n"
       "              (newp[1, t2e[2]] - newp[1, t2e[4]]) ** 2)",
